@@ -57,6 +57,18 @@ def gen(rng, k):
             script.append(dict(t=t, s=0, op='add_timer', cid=500 + i, delta=rng.choice([1000, 30000]), ret=False, script=[dict(op='send', a=a)]))
         else:
             script.append(dict(t=t, s=0, op='send', a=a))
+    if rng.random() < 0.25:
+        # a group with a SHORTER limit joins an open buffer at a LATER instant, so that its own deadline lies after the buffer's:
+        # the buffer still leaves at the earliest deadline of the groups in it
+        d = rng.choice(dests)
+        t += 500000
+        tl1 = rng.choice([100000, 200000])
+        tl2 = tl1 // 2
+        delta = tl1 - tl2 + rng.choice([10000, 30000])
+        for (tt, tl) in ((t, tl1), (t + delta, tl2)):
+            pf, ps = (rng.randint(240, 255), rng.randrange(256)) if d == 255 else (rng.randrange(0x50, 0xE0), d)
+            script.append(dict(t=tt, s=0, op='send', a=[0, pf, ps, rng.randint(0, 7), sa, dict(seed=rng.getrandbits(24), len=rng.choice([4, 8, 12])), tl, FEFF]))
+        t += delta
     if rng.random() < 0.2:
         # many tiny groups for one destination inside one window: up to 12 fit into one 64-byte frame (5 bytes each)
         d = rng.choice(dests)
